@@ -41,3 +41,21 @@ fn k20_lines_and_points() {
     let back: Multipoint = g.into();
     assert!(back == mp);
 }
+
+// (later session) one direction at a time works (see kani/geo_conv.rs); this one still runs out of memory:
+/// MultiPolygon [(A,[a]), (B,[])] -> polygon rings [Outer A, Inner a, Outer B] (same vertices, grouping and order;
+/// orientation is the ring constructors' business)
+#[kani::proof]
+#[kani::unwind(6)]
+fn k20_polygon_from_geo() {
+    let a = geo_types::LineString(vec![c(0.0, 0.0), c(0.0, 9.0), c(9.0, 9.0), c(0.0, 0.0)]);
+    let h = geo_types::LineString(vec![c(1.0, 2.0), c(3.0, 4.0), c(1.0, 5.0), c(1.0, 2.0)]);
+    let b = geo_types::LineString(vec![c(20.0, 20.0), c(20.0, 29.0), c(29.0, 29.0), c(20.0, 20.0)]);
+    let mp = geo_types::MultiPolygon(vec![geo_types::Polygon::new(a, vec![h]), geo_types::Polygon::new(b, vec![])]);
+    let poly: Polygon = mp.into();
+    assert!(poly.rings().len() == 3);
+    assert!(matches!(poly.rings()[0], PolygonRing::Outer(_)) && matches!(poly.rings()[1], PolygonRing::Inner(_)) && matches!(poly.rings()[2], PolygonRing::Outer(_)));
+    assert!(poly.rings()[0].points().len() == 4 && poly.rings()[1].points().len() == 4 && poly.rings()[2].points().len() == 4);
+    assert!(poly.rings()[0].points()[1].y == 9.0 && poly.rings()[1].points()[1].x == 3.0 && poly.rings()[2].points()[2].x == 29.0);
+}
+
